@@ -556,7 +556,8 @@ func loadYamlFile(ctx context.Context, file types.ConfigFile, opts *Options, wor
 			}
 		}
 	} else {
-		if err := processRawYaml(file.Config); err != nil {
+		// work on a copy: the model handed in by the caller is not ours to edit (and may be loaded again)
+		if err := processRawYaml(deepClone(file.Config)); err != nil {
 			return nil, nil, err
 		}
 	}
